@@ -268,6 +268,127 @@ func mwJobs(e *lib.Env) (jobs []job, exhaustiveOrders int) {
 	return jobs, len(orders)
 }
 
+// linearExtensions lists every order of evs that respects "a group exists before it is
+// used" (gProg.valid).
+func linearExtensions(evs []gEvent) [][]gEvent {
+	var out [][]gEvent
+	used := make([]bool, len(evs))
+	cur := make([]gEvent, 0, len(evs))
+	var rec func()
+	rec = func() {
+		if len(cur) == len(evs) {
+			out = append(out, append([]gEvent{}, cur...))
+			return
+		}
+		for i, e := range evs {
+			if used[i] {
+				continue
+			}
+			// identical events are interchangeable: take only the first unused copy
+			dup := false
+			for k := 0; k < i; k++ {
+				if !used[k] && evs[k] == e {
+					dup = true
+				}
+			}
+			if dup {
+				continue
+			}
+			cur = append(cur, e)
+			if (gProg{Ev: cur}).valid() {
+				used[i] = true
+				rec()
+				used[i] = false
+			}
+			cur = cur[:len(cur)-1]
+		}
+	}
+	rec()
+	return out
+}
+
+// grpJobs: parent server with k = 0..9 global middlewares of mixed priorities, then every
+// valid interleaving of: create group 1, create group 2 (sibling or nested in 1), one own
+// middleware per group, one route per group and one on the parent (thorough: also a late
+// parent middleware, for k in 0..9 again); seeded programs with 2..3 groups, 0..2 own
+// middlewares each, 0..2 late parent middlewares and routes everywhere, in a random valid
+// order.
+func grpJobs(e *lib.Env) []job {
+	r := e.Rand("groups")
+	pool := []int{-1, 0, 0, 1, 5}
+	var progs []gProg
+	seen := map[string]bool{}
+	add := func(p gProg) {
+		if k := p.key(); p.valid() && !seen[k] {
+			seen[k] = true
+			progs = append(progs, p)
+		}
+	}
+	prefix := func(k int) []gEvent {
+		var ev []gEvent
+		for i := 0; i < k; i++ {
+			ev = append(ev, gEvent{Op: 'M', T: 0, P: pool[r.Intn(len(pool))]})
+		}
+		return ev
+	}
+	for k := 0; k <= 9; k++ {
+		for nested := 0; nested <= 1; nested++ {
+			evs := []gEvent{
+				{Op: 'G', T: 1, P: 0}, {Op: 'G', T: 2, P: nested},
+				{Op: 'M', T: 1, P: pool[r.Intn(len(pool))]}, {Op: 'M', T: 2, P: pool[r.Intn(len(pool))]},
+				{Op: 'R', T: 1}, {Op: 'R', T: 2}, {Op: 'R', T: 0},
+			}
+			if !e.Quick() {
+				evs = append(evs, gEvent{Op: 'M', T: 0, P: pool[r.Intn(len(pool))]})
+			}
+			pre := prefix(k)
+			for _, order := range linearExtensions(evs) {
+				add(gProg{Ev: append(append([]gEvent{}, pre...), order...)})
+			}
+		}
+	}
+	for n := e.Pick(1500, 20000); n > 0; n-- {
+		var evs []gEvent
+		groups := 2 + r.Intn(2)
+		for g := 1; g <= groups; g++ {
+			evs = append(evs, gEvent{Op: 'G', T: g, P: r.Intn(g)}) // parent: server or an earlier group
+			for m := r.Intn(3); m > 0; m-- {
+				evs = append(evs, gEvent{Op: 'M', T: g, P: pool[r.Intn(len(pool))]})
+			}
+			for m := 1 + r.Intn(2); m > 0; m-- {
+				evs = append(evs, gEvent{Op: 'R', T: g})
+			}
+		}
+		for m := r.Intn(3); m > 0; m-- {
+			evs = append(evs, gEvent{Op: 'M', T: 0, P: pool[r.Intn(len(pool))]})
+		}
+		evs = append(evs, gEvent{Op: 'R', T: 0})
+		// random valid order: repeatedly pick a random event whose target exists
+		p := gProg{Ev: prefix(r.Intn(10))}
+		left := evs
+		for len(left) > 0 {
+			i := r.Intn(len(left))
+			c := gProg{Ev: append(append([]gEvent{}, p.Ev...), left[i])}
+			if !c.valid() {
+				continue
+			}
+			p = c
+			left = append(append([]gEvent{}, left[:i]...), left[i+1:]...)
+		}
+		add(p)
+	}
+	const per = 150
+	var jobs []job
+	for i := 0; i < len(progs); i += per {
+		j := i + per
+		if j > len(progs) {
+			j = len(progs)
+		}
+		jobs = append(jobs, job{Kind: "grp", Progs: progs[i:j]})
+	}
+	return jobs
+}
+
 type jobOutcome struct {
 	res     *result
 	crashed string // description when the batch could not be completed
@@ -340,6 +461,7 @@ func drive() {
 	jobs = append(jobs, seededSeqJobs(e, e.Pick(20000, 1000000))...)
 	mj, orders := mwJobs(e)
 	jobs = append(jobs, mj...)
+	jobs = append(jobs, grpJobs(e)...)
 	// big batches first: better packing on the worker pool
 	sort.SliceStable(jobs, func(a, b int) bool { return jobs[a].caseCount() > jobs[b].caseCount() })
 
@@ -432,7 +554,7 @@ func drive() {
 		}
 		return a
 	}())
-	e.Extra("exhaustive_scope", fmt.Sprintf("all sequences of length <= %d over the %d-op base alphabet on a bare route; length <= %d over the %d-op extended alphabet; length <= %d behind two transparent middlewares and on the throwing route answered by onError; every distribution of <= %d base operations over the 5 slots (before/after $next in two middlewares, handler); all %d registration orders of sub-multisets of priorities {-1,0,0,1,5}; seeded beyond (length 7..12, stacks of 13..40 registrations)", maxBase, baseOps, maxExt, extOps, maxMw, e.Pick(2, 3), orders))
+	e.Extra("exhaustive_scope", fmt.Sprintf("all sequences of length <= %d over the %d-op base alphabet on a bare route; length <= %d over the %d-op extended alphabet; length <= %d behind two transparent middlewares and on the throwing route answered by onError; every distribution of <= %d base operations over the 5 slots (before/after $next in two middlewares, handler); all %d registration orders of sub-multisets of priorities {-1,0,0,1,5}; every valid interleaving of two groups (sibling or nested) x own middleware x routes on groups and parent, for 0..9 global middlewares; seeded beyond (length 7..12, stacks of 13..40 registrations, 2..3 groups with late parent middlewares)", maxBase, baseOps, maxExt, extOps, maxMw, e.Pick(2, 3), orders))
 	e.Assume(
 		"a terminal call that carries its own status (redirect 302/arg, noContent 204/arg, writeHeader arg, html's optional status) counts as setting that status at the moment of the call",
 		"the underlying writer accepts body bytes for every status (like httptest.ResponseRecorder); net/http's own 204/304 body rules are not part of the property",
@@ -446,7 +568,7 @@ func drive() {
 	e.Finish(lib.Coverage{
 		Evaluations:        total.N,
 		DistinctNontrivial: total.Nontrivial,
-		Rule:               nontrivialRule + "; for middleware stacks: the stack has a priority tie or is not registered in ascending priority order. All executed cases are pairwise distinct (route, sequence) / stack descriptions.",
+		Rule:               nontrivialRule + "; for middleware stacks: the stack has a priority tie or is not registered in ascending priority order; for route-group histories: at least one group registers a middleware of its own. All executed cases are pairwise distinct (route, sequence) / stack descriptions.",
 		Samples:            samples,
 		Exhaustive:         true,
 	})
